@@ -339,8 +339,12 @@ Cut(m, lo, hi) ==
     /\ msgs' = msgs \cup {[m EXCEPT !.lo = lo, !.hi = hi, !.seqs = @ \cap (lo..hi)]}
     /\ UNCHANGED <<txlog, nodes>>
 
+(* a chunk that covers only part of a version and carries no change at all is only ever produced as the    *)
+(* answer to a partial need, i.e. for a node that already buffered another part of that version            *)
+HoleOnly(m) == m.k = "full" /\ m.seqs = {} /\ ~MComplete(m)
 Deliver(n, ms) ==
     /\ \A i \in 1..Len(ms) : ms[i] \in msgs /\ ms[i].a # n
+    /\ \A i \in 1..Len(ms) : HoleOnly(ms[i]) => \E b \in nodes[n].rows[ms[i].a].bufs : b[1] = ms[i].v
     /\ nodes' = [nodes EXCEPT ![n] = DeliverF(@, ms)]
     /\ UNCHANGED <<txlog, msgs>>
 
@@ -413,6 +417,9 @@ C01_MergeOfAll == Quiescent => \A n \in Nodes, a \in Nodes, v \in V : v <= Len(t
 (* C02 in context *)
 C02_HeldIsDurable == \A n, a \in Nodes : a # n => AdvHeld(nodes[n].book[a]) \subseteq (nodes[n].merged[a] \cup FullyBuffered(nodes[n].rows[a]))
 C02_RowsMatch == \A n, a \in Nodes : a # n => nodes[n].rows[a].gaps = Runs(nodes[n].book[a].needed)
+(* the in-memory partial record lists exactly the sequences the seq rows cover (also right after a restart) *)
+C02_PartialRowsMatch == \A n, a \in Nodes : a # n => \A p \in nodes[n].book[a].partials :
+    (\E r \in nodes[n].rows[a].seqs : r.v = p.v) => RowSeqs(nodes[n].rows[a], p.v) = p.seqs
 NoErr == \A n \in Nodes : ~nodes[n].err
 
 (* C03: nothing of a remote version is visible before the step that applies it as a whole *)
